@@ -14,6 +14,31 @@ def _ok_blocks(body):
     return out
 
 
+def _init_with_validate_false(f, m, ci, validate_def):
+    """None when, with validate() overridden to return false, the abstract semantics of init has only Err outcomes; else the reason"""
+    import r_absint
+    from absint import Budget
+    monos = f.mono_bodies_of(m.impl_fn_path(ci, 'init'))
+    if not monos or not validate_def:
+        return 'its semantics could not be evaluated (no monomorphic body)'
+
+    def setup(ex):
+        ex.callee_overrides = {validate_def: (lambda ex_, st_, fr_, t_: ex_.mk_bool(st_, False))}
+    bid = [k for k, v in f.bodies.items() if v is monos[0]][0]
+    ex, outs, status, dt = r_absint.run_entry(f, bid, setup=setup)
+    if status != 'ok':
+        return 'its semantics could not be evaluated (%s)' % status
+    variants = set()
+    for s2, rv in outs:
+        if rv[0] == 'adt' and rv[2] is not None:
+            variants |= set(rv[2])
+        else:
+            variants.add('?')
+    if variants and variants <= {'Err'}:
+        return None
+    return 'with validate() returning false init can still return %s' % sorted(variants)
+
+
 def s12_validate_dominates_init(ctx):
     f = ctx.facts('default')
     m = Model(f)
@@ -78,7 +103,13 @@ def s12_validate_dominates_init(ctx):
                         r.violate(key + '|ok-not-dominated', 'an Ok(..) of %s::init is not dominated by the validate() test' % cname, b.file, line)
                 r.sample({'config': cname, 'validate_call_bb': vbi, 'test_bb': si, 'negated': neg, 'ok_blocks': [o for o, _ in oks]})
         if not guarded:
-            r.violate(key + '|validate-result-unused', '%s::init calls validate() but does not branch on its result' % cname, b.file, b.line)
+            # the result may reach the decision through combinators (`self.validate().then_some(()).ok_or(WrongConfig)?`): decide the
+            # clause semantically -- with validate() answering false, every outcome of init must be Err
+            why = _init_with_validate_false(f, m, ci, vcalls[0][1]['callee'].get('def'))
+            if why:
+                r.violate(key + '|validate-result-unused', '%s::init calls validate() but does not branch on its result, and %s' % (cname, why), b.file, b.line)
+            else:
+                r.sample({'config': cname, 'validate': 'result reaches the decision through combinators; with validate() = false every outcome of init is Err (abstract interpretation)'})
         # no write into self / cfg copy fields
         for bi, si2, s in b.stmts():
             if s['s'] == 'assign' and s['pl']['p'] and s['pl']['p'][0]['p'] == 'field':
